@@ -384,7 +384,7 @@ func (vc *VC) evalBinary(x *ast.BinaryExpr, st *State) Val {
 		for k, h2 := range st2.heaps {
 			h1, ok := st.heaps[k]
 			if !ok {
-				h1 = vc.entryHeap(k)
+				h1 = vc.implicitHeap(st, k)
 			}
 			if h1 != h2 {
 				st.heaps[k] = Ite(cond, h2, h1)
@@ -1042,6 +1042,9 @@ func (vc *VC) evalCompositeLitTyped(x *ast.CompositeLit, t types.Type, st *State
 func (vc *VC) convertTo(v Val, t types.Type, st *State, n ast.Node) Val {
 	if v.T != nil && types.Identical(v.T, t) {
 		return Val{T: t, C: v.C}
+	}
+	if b, ok := v.T.(*types.Basic); ok && b.Kind() == types.UntypedNil {
+		return zeroVal(t)
 	}
 	from, to := kindOf(v.T), kindOf(t)
 	switch {
